@@ -263,13 +263,23 @@ fn run(sh: &mut Shard) {
         for body in &bodies {
             for named in [false, true] {
                 for in_block in [false, true] {
-                    for calls in 0..4 {
+                    // (how the name is declared the first and the second time: a variable, a named function
+                    // statement, a variable holding a function literal)
+                    for calls in 0..4 { for first in 0..3 { for second in 0..3 {
+                        let decl = |kind: usize, v: i64| match kind {
+                            0 => let_("a", int(v)),
+                            1 => es(func("a", &[], vec![es(int(v))])),
+                            _ => let_("a", func("", &[], vec![es(int(v))])),
+                        };
                         let fdef = if named { es(func("f", &[], body.clone())) } else { let_("f", func("", &[], body.clone())) };
-                        let mut p: Vec<Stmt> = vec![let_("a", int(1)), fdef, let_("g", id("f"))];
+                        let mut p: Vec<Stmt> = vec![decl(first, 1), fdef, let_("g", id("f"))];
                         if calls & 1 != 0 {
                             p.push(print1(calln("f", vec![])));
                         }
-                        p.push(let_("a", int(10)));
+                        p.push(decl(second, 10));
+                        if second != 0 {
+                            p.push(print1(calln("a", vec![])));
+                        }
                         if calls & 2 != 0 {
                             p.push(print1(calln("g", vec![])));
                         }
@@ -283,7 +293,7 @@ fn run(sh: &mut Shard) {
                         sh.count("family:directed-redeclaration");
                         let n = check_program(sh, &prog);
                         sh.add("runs", n);
-                    }
+                    } } }
                 }
             }
         }
